@@ -537,6 +537,10 @@ func expandRequestData(testCase *conformancev1.TestCase) error {
 				padding := make([]byte, delta)
 				bytesVal = append(bytesVal, padding...)
 			} else {
+				if -delta > int64(len(bytesVal)) {
+					return fmt.Errorf("request message #%d: can't shrink to exactly %d bytes; without any padding it is still %d bytes",
+						i+1, totalSize, size-len(bytesVal))
+				}
 				bytesVal = bytesVal[:len(bytesVal)+int(delta)]
 			}
 			reflectReq.Set(field, protoreflect.ValueOfBytes(bytesVal))
